@@ -47,6 +47,8 @@ class OS:
         self.trace = []
         self.written = []
         self.select_calls = []
+        self.read_args = []
+        self.flags_at_read = []
         self.on_select = None
         self.pipes = {}          # write end -> read end
         self.tick = 0.25         # the clock advances by this much at every time.time() call
@@ -164,6 +166,8 @@ class OS:
         self._call("os.read")
         fd = a[0]
         self._open(fd, "read")
+        self.read_args.append((a[0], a[1]))
+        self.flags_at_read.append(self.flags.get(fd, 0))
         q = self.data.get(fd, [])
         if not q:
             if self.flags.get(fd, 0) & O_NONBLOCK:
